@@ -345,13 +345,23 @@ def resume_probe(run, tier, rng):
         try:
             s.run(n_total=24, progress=False, save_every=1)
             ck = work / "r_final.state"
-            s2 = make_sampler(rng, False, **dict(cfg))
+            # resumed by a sampler with ANOTHER number of particles: the stored batches now have unequal sizes
+            s2 = make_sampler(rng, False, **dict(cfg, n_particles=30))
             s2.run(n_total=90, progress=False, resume_state_path=str(ck))
         except Exception as e:
             run.fail("run-raises", f"resumed run raised {type(e).__name__}: {e}", **what)
             continue
         run.case(key=("resume", rep), nontrivial=True)
         check_run(run, s2, 90, what)
+        # evidence() against an independent evaluation of the mixture formula (n_t/N weights) on the stored history
+        import c04
+        h = s2.state._history
+        ref = float(c04.ref_decimal([float(b) for b in h["beta"]], [float(z) for z in h["logz"]], [list(map(float, l)) for l in h["logl"]], 1.0)[1])
+        sizes = sorted({len(l) for l in h["logl"]})
+        run.count(f"resume probe: batch sizes in the resumed history {sizes}")
+        if abs(float(s2.evidence()[0]) - ref) > 1e-8 * max(1.0, abs(ref)):
+            run.fail("evidence-not-mis", f"after resuming with another n_particles (batch sizes {sizes}) evidence()={float(s2.evidence()[0])!r} but the "
+                     f"mixture formula on the stored history gives {ref!r}", **what)
 
 
 def sweep(run, tier, rng):
